@@ -455,6 +455,8 @@ def run(ctx):
     except translate_locks.TranslationError as e:
         ctx.proof_problems.append({"theorem": "updaters_exclusive", "what": "translator refused cmd.py/setupcmd.py: %s" % e})
     ctx.check_theorems()
+    if ctx.tier == "thorough":
+        ctx.coqchk(["Eupsv.Props.C09"])
     lists = coq_lists()
     if lists["mutating_commands"] != list(MUTATING) or lists["reader_commands"] != list(READERS):
         ctx.proof_problems.append({"theorem": "updaters_exclusive",
@@ -484,7 +486,7 @@ def run(ctx):
     complete = explore(ctx, configs, cap)
     ctx.exhaustive = complete
     # 5. random three-process schedules
-    n = ctx.size(2000, 40000)
+    n = ctx.size(2000, 15000)
     cases = [gen_random(ctx.rng) for _ in range(n)]
     ctx.sample(cases[0])
     check_cases(ctx, cases, "random3")
